@@ -987,7 +987,7 @@ void enumTriMaps(const Feed& feed, unsigned V, unsigned cslack, const std::vecto
 	std::vector<uint8_t> tp;
 	while (true) {
 		for (uint64_t mask = 0; mask < (1ull << V); mask++) {
-			tp.assign({static_cast<uint8_t>(U_TRIMAP), static_cast<uint8_t>(rot++ % 6), static_cast<uint8_t>(V), 0 /*collapse map*/, 0 /*bitmask list*/});
+			tp.assign({static_cast<uint8_t>(U_TRIMAP), static_cast<uint8_t>(mix(rot++, 17) % 6), static_cast<uint8_t>(V), 0 /*collapse map*/, 0 /*bitmask list*/});
 			pushMask(tp, mask, V);
 			tp.push_back(static_cast<uint8_t>(cslack));
 			tp.push_back(static_cast<uint8_t>(T));
@@ -1070,7 +1070,8 @@ void deterministic(Run& run, const Feed& feed) {
 					feed(tp);
 				}
 
-	// ApplyMapToTriangles, all collapse maps, the 6 (map type, deletedTris) variants in rotation:
+	// ApplyMapToTriangles, all collapse maps, one of the 6 (map type, deletedTris) variants per case, chosen by a
+	// hash of the case number (a plain rotation would alias with the 2^V maps and the 16 shards):
 	//  A: V<=4, corners over {0..V} (one value outside the map), all lists of <= 2 triangles
 	//  B: V<=3, corners in range, all lists of exactly 3 triangles
 	//  C: V=4, lists of exactly 3 triangles: distinct-corner triangles (quick) / all 64 (thorough)
@@ -1126,7 +1127,7 @@ int main(int argc, char** argv) {
 			 "sizes <= 10/12 x all slot sets x {valid, 2 rejected out-of-range lists} x 4 index types x 2 containers; "
 			 "collapse and expand maps = sizes <= 8/10 x all lists over [0,n+2) x 5 type pairs; ApplyMapToTriangles = all "
 			 "collapse maps x (V<=4: all lists of <=2 triangles over {0..V}; V<=3: all lists of 3 triangles; V=4: all lists "
-			 "of 3 distinct-corner/all triangles), 6 (map type, deletedTris) variants in rotation; ApplyIndexMapToMapKeys "
+			 "of 3 distinct-corner/all triangles), one of 6 (map type, deletedTris) variants per case by hash; ApplyIndexMapToMapKeys "
 			 "= all collapse maps of size <= 4/5 x all key sets over [0,M+2) x 3 offsets x 4 map types; strips = all single "
 			 "strips over {0..3} of length <= 7/9 and all strip pairs of total length <= 6/7. Random part: rapidcheck tapes, "
 			 "sizes mostly <= 19, sometimes <= 400, <= 70000 or at the type maximum (65535 for 16-bit instantiations), lists "
